@@ -782,3 +782,17 @@ impl PeerHandler {
         }
     }
 }
+
+#[cfg(feature = "verif")]
+impl PeerHandler {
+    /// Run the connection task over an in-memory stream (verification harness only).
+    pub async fn verif_run_mem(&mut self, stream: tokio::io::DuplexStream) {
+        self.connection.verif_with_stream(stream);
+        self.run().await;
+    }
+
+    /// Block list produced by the private `PieceRx::left`.
+    pub fn verif_left(piece_length: usize) -> Vec<(usize, usize)> {
+        PieceRx::left(piece_length).into_iter().collect()
+    }
+}
